@@ -24,6 +24,25 @@ def _fresh_containers(v: FuncView):
     return out
 
 
+class _Softened:
+    """Result proxy: a violation becomes `unknown` (used for builders whose inputs are parameters)"""
+
+    def __init__(self, res):
+        self._res = res
+
+    def __getattr__(self, name):
+        return getattr(self._res, name)
+
+    def violation(self, rule, func, stmt, detail="", reason="", where="", **extra):
+        return self._res.unknown(rule, func, stmt, detail, "(builder with parameters) " + reason, where, **extra)
+
+    def check(self, cond, rule, func, stmt, detail="", reason="", where="", **extra):
+        return self._res.add(rule, func, stmt, detail, "ok" if cond else "unknown", "" if cond else "(builder with parameters) " + reason, where, **extra)
+
+    def add(self, rule, func, stmt, detail="", status="ok", reason="", where="", **extra):
+        return self._res.add(rule, func, stmt, detail, "unknown" if status == "violation" else status, reason, where, **extra)
+
+
 class Ev:
     """A method call on the extract: written in `view` (this function or a helper that was handed the extract), standing
     at `at` (a node of the analysed function: the call itself or the call of the helper)."""
@@ -154,13 +173,17 @@ def _transfer_loops(ctx, v: FuncView, h: str, setter: str, getter: str, depth: i
     return out
 
 
-def check_extraction(ctx, res: Result, dotted, _seen=None):
+def check_extraction(ctx, res: Result, dotted, _seen=None, delegated: bool = False):
     v = ctx.view(dotted)
     f = v.fi.short
     _seen = _seen if _seen is not None else set()
     if v.fi.qualname in _seen:
         return
     _seen.add(v.fi.qualname)
+    if delegated:
+        # a private builder that is handed the data to put into the extract (nodes, hyperedges, weights, metadata as
+        # parameters): what it is handed is the caller's business; nothing that is "missing" here is definite
+        res = _Softened(res)
     fresh = _fresh_containers(v)
     rets = [n for n in walk_no_nested(v.fi.node) if isinstance(n, ast.Return) and isinstance(n.value, ast.Name) and n.value.id in fresh]
     delegated = _check_delegation(ctx, res, v, _seen)
@@ -291,7 +314,8 @@ def _check_delegation(ctx, res: Result, v: FuncView, _seen=None) -> bool:
                 for callee in ctx.callees(v.fi, n.value):
                     if callee.cls is not None and _fresh_containers(ctx.view(callee)):
                         res.ok("X-DELEG", f, norm(n.value), "delegates", loc(v.fi, n.value))
-                        check_extraction(ctx, res, callee, _seen)
+                        uses_params = any(isinstance(x, ast.Name) and x.id in {a.arg for a in callee.params} - {"self"} for x in ast.walk(callee.node))
+                        check_extraction(ctx, res, callee, _seen, delegated=uses_params and len(callee.params) > 2)
                         dels.append(None)
     if not dels:
         return False
